@@ -31,23 +31,27 @@ Definition group_overrun_in_loop (c : config) (st : state) (p : pool) (ev : even
   exists now, ev = ETick now /\ step c st p ev = Crashed W_GROUP.
 Definition oom_on_arrival (c : config) (st : state) (p : pool) (ev : event) : Prop :=
   under_recover ev = true /\ mem_ok c ev = false /\ step c st p ev = Crashed 0%N.
+Definition nil_validator_in_loop (c : config) (st : state) (p : pool) (ev : event) : Prop :=
+  exists now, ev = ETick now /\ c_noval c = true /\ step c st p ev = Crashed W_NILVAL.
 
 Lemma step_crash_kind : forall c st p ev w,
   pend_inv QTrue st -> step c st p ev = Crashed w ->
-  group_overrun_in_loop c st p ev \/ oom_on_arrival c st p ev.
+  group_overrun_in_loop c st p ev \/ oom_on_arrival c st p ev \/ nil_validator_in_loop c st p ev.
 Proof.
   intros c st p ev w I H. destruct ev; simpl in H.
-  - right. unfold recv_lt_raw in H. destruct (mem_n (lt_hash lb) (st_filter st)) eqn:Em; [discriminate|].
+  - right. left. unfold recv_lt_raw in H. destruct (mem_n (lt_hash lb) (st_filter st)) eqn:Em; [discriminate|].
     match type of H with context [add_lt ?a ?b ?c0 ?d ?e ?f ?g] => destruct (add_lt a b c0 d e f g) as [[s e0]| |] eqn:E end; try discriminate.
     apply add_lt_fatal in E as E'. destruct E' as [h [Eh R]].
     split; [reflexivity|]. split.
     + simpl. rewrite Eh. apply negb_false_iff, andb_true_iff. split; [apply Z.ltb_lt|apply Z.leb_le]; lia.
     + simpl. unfold recv_lt_raw. rewrite Em, E. reflexivity.
-  - left. exists now. split; [reflexivity|]. simpl.
-    unfold tick_raw in *. pose proof (scan_not_fatal p now (c_timeout c) (st_pend st)) as NF.
-    destruct (scan p now (c_timeout c) (st_pend st)) as [[[k t] e0]| |] eqn:Es; try discriminate; [|congruence].
-    assert (why = W_GROUP) as ->; [|reflexivity].
-    eapply scan_panic_group; [|exact Es]. eapply Forall_impl; [|exact I]. intros a [A _]; exact A.
+  - unfold tick_raw in H. pose proof (scan_not_fatal (c_noval c) p now (c_timeout c) (st_pend st)) as NF.
+    destruct (scan (c_noval c) p now (c_timeout c) (st_pend st)) as [[[k t] e0]| |] eqn:Es; try discriminate; [|congruence].
+    assert (K : why = W_GROUP \/ (c_noval c = true /\ why = W_NILVAL)).
+    { eapply scan_panic_kind; [|exact Es]. eapply Forall_impl; [|exact I]. intros a [A _]; exact A. }
+    destruct K as [->|[NV ->]].
+    + left. exists now. split; [reflexivity|]. simpl. unfold tick_raw. rewrite Es. reflexivity.
+    + right. right. exists now. split; [reflexivity|]. split; [exact NV|]. simpl. unfold tick_raw. rewrite Es. reflexivity.
   - discriminate.
   - discriminate.
   - destruct decodes; [destruct (add_req c st from height)|]; discriminate.
@@ -60,7 +64,7 @@ Lemma crash_characterisation : forall c p0 evs,
   run c init p0 evs = None ->
   exists pre ev post st p,
     evs = pre ++ ev :: post /\ run c init p0 pre = Some (st, p)
-    /\ (group_overrun_in_loop c st p ev \/ oom_on_arrival c st p ev).
+    /\ (group_overrun_in_loop c st p ev \/ oom_on_arrival c st p ev \/ nil_validator_in_loop c st p ev).
 Proof.
   intros c p0 evs H.
   destruct (run_none_split _ _ _ _ H) as [pre [ev [post [st [p [w [A [B C]]]]]]]].
@@ -103,7 +107,8 @@ Proof.
 Qed.
 
 (** * witnesses *)
-Definition cfg0 : config := mkCfg 2147483648 3600000 [].
+Definition cfg0 : config := mkCfg 2147483648 3600000 [] false.
+Definition cfg_noval : config := mkCfg 2147483648 3600000 [] true.
 Definition plain (id : N) : ptx := mkPtx id 0 [].
 Definition grp2 : ptx := mkPtx 18%N 2 [16; 17]%N.
 Definition lt_w : ltblock := mkLt (Some (mkHdr 3 5 1%N 1%N)) (Some 11%N) [1; 2; 3]%N.
@@ -144,4 +149,11 @@ Lemma hist_fits_posts :
 Proof. vm_compute. repeat split. eexists. split; reflexivity. Qed.
 
 Lemma wellformed_example : wellformed cfg0 lt_w = true /\ fits [(2%N, grp2)] lt_w = true.
+Proof. vm_compute. auto. Qed.
+
+(** validation disabled: the same honest history (the group fits) kills the loop
+    right after the completed block was handed over *)
+Lemma noval_crashes :
+  forallb (mem_ok cfg_noval) hist_fits = true /\ fits_hist [] hist_fits = true
+  /\ run cfg_noval init [] hist_fits = None.
 Proof. vm_compute. auto. Qed.
